@@ -451,6 +451,8 @@ class Explorer:
     def _consider_keep(self, nid: int, key: bytes, flat_s: Any, ts2: Any, r: int, i: int, a: int) -> None:
         pr = hashlib.sha1(self.seed.to_bytes(8, "little", signed=True) + key).digest()[:8]
         cap = 4 * self.eager_max_paths
+        if cap <= 0:
+            return
         if len(self._kept) >= cap:
             worst = max(self._kept.items(), key=lambda kv: kv[1][0])
             if pr >= worst[1][0]:
